@@ -476,7 +476,7 @@ def enum_struct_ir(ctx, rid):
         if pat.get("ty", "").endswith("type_params::TypeParameters") and origin[0] == "let":
             tp_sym = lid
     syms = {tp_sym: "TP"} if tp_sym is not None else {}
-    name_exp = "Option::expect(Option::map(Path::ident(%s.path),|1|{syn::parse_str(C1_0)}))?" % TY
+    name_exp = "syn::parse_str(Path::ident(%s.path)@v1::Some.0)?" % TY
     docs_exp = "TypeGenerator::docs_from_scale_info(P0,%s.docs)" % TY
     if enums:
         t = N.term(enums[0], syms)
